@@ -4,6 +4,7 @@ Oracle: canon(Pil.denote(impl's .pil)) == canon(denoteSys(bundle)) — instance 
 members with reverse complement exactly when the stars on binding and declaration differ, nested systems;
 import resolution: first matching file in the importing file's directory, then the include list in order."""
 import os
+import re
 
 import core
 from core import Result
@@ -47,6 +48,42 @@ def shadowed(rng, b):
     if os.path.dirname(p) and not os.path.exists(base) and base not in b2.texts:
         b2.texts[base] = "declare component Decoy2: ->\nsequence q = \"2S\"\nstrand Q = q\n"
     return b2
+
+
+def check_nested_search_path(res, rng, n):
+    """directed: a sub-system that lives in ANOTHER directory than its user imports a template by bare name that is missing from its own
+    directory but exists (with other content) beside an ENCLOSING system and in an include directory.  The search path of an import is
+    the importing file's directory, then the include directories in order - the directories of enclosing systems are not on it."""
+    import impl
+    for k in range(n):
+        la, lb, lc = rng.sample([3, 4, 5, 6, 7, 8, 9], 3)
+        leaf = lambda L: 'declare component Leaf: a -> b\nsequence a = "%dN"\nsequence b = "%dN"\nsequence m = "%dN"\nstrand S = a m b\nstructure T = S : %d.\n' % (4, 4, L, L + 8)
+        b = progen.Bundle()
+        sub = rng.choice(["sub", "parts/mid", "x"])
+        b.texts["Leaf.comp"] = leaf(la)                      # beside the top system: must NOT be found by the sub-system
+        b.texts["lib/Leaf.comp"] = leaf(lb)                  # on the include path: the one the sub-system must get
+        b.texts["lib2/Leaf.comp"] = leaf(lc)                 # later on the include path
+        b.texts[sub + "/Mid.sys"] = "declare system Mid: p -> q\nimport Leaf\ncomponent l = Leaf: p -> q\n"
+        b.texts["Top.sys"] = "declare system Top: ->\nimport %s/Mid, Leaf\ncomponent m = Mid: s -> t\ncomponent own = Leaf: t -> u\n" % sub
+        b.entry = "Top"; b.includes = ["lib", "lib2"]; b.directed = True
+        r = impl.compile_bundle(b, "pil")
+        res.evaluations += 1
+        res.count("directed:sub-system-in-another-directory")
+        inp = {"files": b.texts, "entry": "Top", "includes": b.includes}
+        cmd = "pepper-compiler Top -I lib -I lib2"
+        if not r["ok"]:
+            res.violations.append({"what": "a well-formed nested system is rejected: %s" % r.get("exc"), "input": inp, "sig": "C02:rejects-valid", "cmd": cmd})
+            continue
+        got = {}
+        for line in r["text"].split("\n"):
+            mm = re.match(r"^sequence (\S+)-m = (N+)", line)
+            if mm:
+                got[mm.group(1)] = len(mm.group(2))
+        want = {"m-l": lb, "own": la}
+        if got != want:
+            res.violations.append({"what": "an import resolves to another file than the first match in the importing file's directory and then the include directories: "
+                                           "instance -> length of its marker sequence %r, expected %r (Leaf beside Top: %d, lib/Leaf: %d, lib2/Leaf: %d)" % (got, want, la, lb, lc),
+                                   "input": inp, "observed": got, "expected": want, "sig": "C02:import-resolution", "cmd": cmd})
 
 
 def dotdot_case(rng):
@@ -104,6 +141,7 @@ def run(st, tier, seed):
     res.count("repository-examples", len(exb))
     bundles += exb
     compile_check.run_bundles(st, res, bundles, "C02", "system", must_accept=True)
+    check_nested_search_path(res, rng, 4 if tier == "quick" else 60)
     res.programs = len(bundles)
     # the same wiring in the other emitted specification (.des back-end): ports tied to their signals with the right orientation
     if st.driver_ok:
